@@ -14,7 +14,13 @@
 (*     of at most Cap entries, an optional hash index with continuation    *)
 (*     flags -- e2fsck/rehash.c), one file mapping (sorted extent list or  *)
 (*     block map plus the metadata blocks that hold it -- e2fsck/          *)
-(*     extents.c), and the allocation summaries (bitmap, free count,       *)
+(*     extents.c; every extent is written or unwritten = fallocated: a     *)
+(*     read of an unwritten block returns zeros whatever the disk holds),  *)
+(*     the directory's name semantics (casefold flag of the directory,     *)
+(*     strict-encoding flag of the filesystem, names that are not valid    *)
+(*     UTF-8, names that differ only in case -- pass2.c                    *)
+(*     encoded_check_name, rehash.c duplicate search),                     *)
+(*     and the allocation summaries (bitmap, free count,                   *)
 (*     BLOCK_UNINIT, the set of objects whose stored checksum is wrong --  *)
 (*     pass 5, recheck_bad_inode_checksum, pass 2 "passes checks but       *)
 (*     checksum does not match").  Actions: Rehash (-D, or forced by a bad *)
@@ -44,13 +50,30 @@ CONSTANTS Hashes,      \* hash values of the model names (names sharing a hash =
           DevCsumClearsLeaf,         \* pass 2 clears a directory block whose only fault is its checksum
           DevSbCsumRefuses,          \* a superblock whose only fault is its checksum is not repaired (exit 8): literal behaviour of the
                                      \* pinned tree when no backup is found at the default geometry (fixes/C05_backup_sb_group_size)
-          DevInodeUninitWipes        \* a set *_UNINIT flag with a valid descriptor checksum is believed: the group is not scanned and
+          DevInodeUninitWipes,       \* a set *_UNINIT flag with a valid descriptor checksum is believed: the group is not scanned and
                                      \* everything that lives in it is released (fixes/C05_inode_uninit_first_group)
+          InitExtStates,             \* states the extents of a start may be in: subset of {"w", "u"}
+          InvalidIds,                \* ids of the model names whose bytes are not valid UTF-8
+          CfModes,                   \* start configurations of the directory: subset of CfModeSet
+          DevRebuildMergesAcrossState,   \* extent rebuild merges a written and an unwritten neighbour (the first one's state wins)
+          DevEncCheckIgnoresStrict,  \* pass 2 verifies the encoding of the names of a casefolded directory although the filesystem is not strict
+          DevDupFoldsPlainDir        \* the duplicate search of the directory rebuild compares case-insensitively in a directory without the casefold flag
 
 Modes == {"p", "y", "yD", "b2e", "fo"}       \* -fp, -fy, -fyD, -fy -E bmap2extent, -fy -E fixes_only
 
-Names == Hashes \X Ids
-Hash(n) == n[1]
+\* MutId: the id a name gets when e2fsck rewrites it (invalid bytes replaced by dots, duplicate made unique); never in a start
+MutId == 0
+Names == Hashes \X (Ids \cup {MutId})
+StartNames == Hashes \X Ids
+Hash(n) == n[1]                     \* the hash the directory's hash function gives the name (of the folded name in a casefolded directory)
+\* names that differ only in case (or only in Unicode normalisation): same folded form, hence same hash in a casefolded
+\* directory; ids 2k and 2k+1 are such twins.  In a directory without the casefold flag they are simply two names.
+Fold(i) == i \div 2
+Twin(a, b) == a # b /\ a[1] = b[1] /\ Fold(a[2]) = Fold(b[2]) /\ a[2] # MutId /\ b[2] # MutId
+ValidEnc(n) == n[2] \notin InvalidIds
+CfModeSet == {"plain", "plain_strict", "folded", "folded_strict"}     \* casefold flag of the directory x EXT4_ENC_STRICT_MODE_FL of the fs
+IsFolded(c) == c \in {"folded", "folded_strict"}
+IsStrict(c) == c \in {"plain_strict", "folded_strict"}
 NameLt(a, b) == a[1] < b[1] \/ (a[1] = b[1] /\ a[2] < b[2])          \* hash_cmp: hash, then name
 AllBlks == DataBlks \cup MetaBlks
 Rng(s) == {s[k] : k \in DOMAIN s}
@@ -60,7 +83,7 @@ VARIABLES
   \* ---- abstract (property level)
   tree, tree0, cons, exit, mode, dmgd, dch, mch, lin3,
   \* ---- representation: the directory
-  leaves, index, indexed,
+  leaves, index, indexed, cfm,
   \* ---- representation: the file mapping
   exts, kind, meta,
   \* ---- representation: allocation summaries and checksum fields
@@ -69,7 +92,7 @@ VARIABLES
   dmg, runs
 
 absvars == <<tree, tree0, cons, exit, mode, dmgd, dch, mch, lin3>>
-repvars == <<leaves, index, indexed, exts, kind, meta, bitmap, freecnt, uninit, badcsum>>
+repvars == <<leaves, index, indexed, cfm, exts, kind, meta, bitmap, freecnt, uninit, badcsum>>
 vars == <<absvars, repvars, dmg, runs>>
 
 (***************************************************************************)
@@ -107,11 +130,17 @@ DamageContract == mode' = "none" /\ tree' = tree
 (***************************************************************************)
 Flat(lv) == IF Len(lv) = 0 THEN <<>> ELSE FoldLeft(LAMBDA acc, b : acc \o b, <<>>, lv)
 Count(lv, n) == Cardinality({<<k, j>> \in (DOMAIN lv) \X (1..Cap) : j \in DOMAIN lv[k] /\ lv[k][j] = n})
+\* an extent is <<first logical block, length, first physical block, state>>, state "w" (written) or "u" (unwritten)
 Covered(es) == UNION {{<<e[1] + i, e[3] + i>> : i \in 0..(e[2] - 1)} : e \in Rng(es)}      \* <<logical block, physical block>>
+\* what a read returns: the bytes of the physical block for a written block; zeros for an unwritten block exactly as for a
+\* hole, whatever the disk holds there (so only written blocks contribute to the content)
+Readable(es) == UNION {{<<e[1] + i, e[3] + i>> : i \in 0..(e[2] - 1)} : e \in {x \in Rng(es) : x[4] = "w"}}
+\* the initialised state of every mapped block
+InitMap(es) == UNION {{<<e[1] + i, e[3] + i, e[4]>> : i \in 0..(e[2] - 1)} : e \in Rng(es)}
 
 \* what the user sees: which names exist (as a bag) and which physical block backs each logical block of the file
 \* (data blocks are never moved by the modelled repairs, so the block a logical offset maps to stands for its bytes)
-AbsTree(lv, es) == [names |-> [n \in Names |-> Count(lv, n)], content |-> Covered(es)]
+AbsTree(lv, es) == [names |-> [n \in Names |-> Count(lv, n)], content |-> Readable(es)]
 
 Owned(es, mt) == {c[2] : c \in Covered(es)} \cup mt
 
@@ -119,6 +148,11 @@ DirOK ==
     /\ Len(leaves) >= 1
     /\ \A k \in DOMAIN leaves : Len(leaves[k]) <= Cap
     /\ \A n \in Names : Count(leaves, n) <= 1
+    /\ cfm \in CfModeSet
+    \* a casefolded directory never holds two names with the same folded form (the kernel's lookup is case-insensitive there),
+    \* and on a strict filesystem every name of a casefolded directory is valid UTF-8 (the kernel refuses to create others)
+    /\ (IsFolded(cfm) => \A a, b \in Rng(Flat(leaves)) : ~Twin(a, b))
+    /\ (IsFolded(cfm) /\ IsStrict(cfm) => \A a \in Rng(Flat(leaves)) : ValidEnc(a))
     /\ IF indexed
        THEN /\ Len(index) = Len(leaves) /\ index[1].h = 0 /\ ~index[1].cont
             /\ \A k \in DOMAIN leaves : \A j \in DOMAIN leaves[k] :
@@ -130,6 +164,7 @@ DirOK ==
 
 MapOK ==
     /\ \A k \in DOMAIN exts : exts[k][2] >= 1 /\ exts[k][1] \in LBlks /\ (exts[k][1] + exts[k][2] - 1) \in LBlks
+    /\ \A k \in DOMAIN exts : exts[k][4] \in {"w", "u"} /\ (kind = "ind" => exts[k][4] = "w")      \* a block map has no unwritten state
     /\ \A k \in 1..(Len(exts) - 1) : exts[k][1] + exts[k][2] <= exts[k + 1][1]
     /\ \A c \in Covered(exts) : c[2] \in DataBlks
     /\ \A c, d \in Covered(exts) : c[2] = d[2] => c = d
@@ -151,8 +186,21 @@ RepOK == DirOK /\ MapOK /\ SummOK
 (* index with continuation flags (calculate_tree).  A directory that fits  *)
 (* in one block is written back linear.                                    *)
 (***************************************************************************)
-RehashDir(lv) ==
-    LET srt == SortSeq(Flat(lv), NameLt)
+\* pass2.c check_dir_block / encoded_check_name: only in a casefolded directory of a filesystem in strict mode (or with
+\* -E check_encoding, not one of the five modes) is the encoding of a name verified; a name that is not valid UTF-8 is then
+\* rewritten (offending bytes replaced by dots).  Elsewhere names are opaque byte strings and are left alone.
+EncChecked(c) == IsFolded(c) /\ (IsStrict(c) \/ DevEncCheckIgnoresStrict)
+FixName(n) == <<n[1], MutId>>
+Pass2Names(lv, c) == IF EncChecked(c)
+                     THEN [k \in DOMAIN lv |-> [j \in DOMAIN lv[k] |-> IF ValidEnc(lv[k][j]) THEN lv[k][j] ELSE FixName(lv[k][j])]]
+                     ELSE lv
+\* rehash.c duplicate_search_and_fix: neighbours of the sorted list that are the same name are made unique; "the same" is
+\* case-insensitive exactly when the directory carries the casefold flag (name_cmp_ctx.casefold)
+DupFold(c) == IsFolded(c) \/ DevDupFoldsPlainDir
+Dedup(srt, c) == [j \in DOMAIN srt |-> IF j > 1 /\ DupFold(c) /\ Twin(srt[j - 1], srt[j]) THEN FixName(srt[j]) ELSE srt[j]]
+
+RehashDir(lv, c) ==
+    LET srt == SortSeq(Dedup(SortSeq(Flat(lv), NameLt), c), NameLt)
         n   == Len(srt)
     IN  IF n <= Cap THEN [leaves |-> <<srt>>, index |-> <<>>, indexed |-> FALSE]
         ELSE LET nb  == (n + Cap - 1) \div Cap
@@ -169,18 +217,22 @@ RehashDir(lv) ==
 (* neighbours that are contiguous logically and physically, write the list *)
 (* back: into the inode if it fits, otherwise into one leaf block.         *)
 (***************************************************************************)
-Adj(a, b) == a[1] + a[2] = b[1] /\ a[3] + a[2] = b[3]
+\* load_extents: a neighbour is attached to the previous extent when it continues it logically AND physically AND is in the
+\* same initialised state (Dev: the state is not compared; the merged extent keeps the state of its first part)
+Adj(a, b) == a[1] + a[2] = b[1] /\ a[3] + a[2] = b[3] /\ (a[4] = b[4] \/ DevRebuildMergesAcrossState)
 MStarts(es) == {k \in DOMAIN es : k = 1 \/ ~Adj(es[k - 1], es[k])}
 RunEnd(es, s) == CHOOSE e \in s..Len(es) : (e = Len(es) \/ (e + 1) \in MStarts(es)) /\ \A j \in (s + 1)..e : j \notin MStarts(es)
 Merged(es) ==
     LET st == SetToSortSeq(MStarts(es), LAMBDA a, b : a < b)
-    IN  [i \in DOMAIN st |-> LET s == st[i]  e == RunEnd(es, s) IN <<es[s][1], es[e][1] + es[e][2] - es[s][1], es[s][3]>>]
+    IN  [i \in DOMAIN st |-> LET s == st[i]  e == RunEnd(es, s) IN <<es[s][1], es[e][1] + es[e][2] - es[s][1], es[s][3], es[s][4]>>]
 LowMeta == CHOOSE b \in MetaBlks : \A c \in MetaBlks : b <= c
 Rebuild(es) ==
     LET m  == Merged(es)
         m2 == IF DevRebuildDropsLast /\ Len(m) > InoExt THEN SubSeq(m, 1, Len(m) - 1) ELSE m
     IN  [exts |-> m2, kind |-> "ext", meta |-> IF Len(m2) <= InoExt THEN {} ELSE {LowMeta}]
-CanCollapse == kind = "ext" /\ Len(exts) <= InoExt /\ meta # {}      \* e2fsck_should_rebuild_extents: a level can go
+\* e2fsck_should_rebuild_extents: a level can go when it holds FEWER extents than a level above it has room for
+\* (`ei->num_extents < eti->ext_info[j].max_extents`)
+CanCollapse == kind = "ext" /\ Len(exts) < InoExt /\ meta # {}
 
 (***************************************************************************)
 (* Initial states: every consistent filesystem of the small universe       *)
@@ -190,8 +242,8 @@ ExtStarts(f, cuts) == {l \in DOMAIN f : (l - 1) \notin DOMAIN f \/ f[l - 1] + 1 
 ExtLen(f, cuts, s) == CHOOSE n \in 1..Cardinality(LBlks) :
                          /\ \A i \in 0..(n - 1) : (s + i) \in DOMAIN f /\ (i > 0 => (s + i) \notin ExtStarts(f, cuts))
                          /\ ((s + n) \notin DOMAIN f \/ (s + n) \in ExtStarts(f, cuts))
-ExtsOf(f, cuts) == LET st == SetToSortSeq(ExtStarts(f, cuts), LAMBDA a, b : a < b)
-                   IN  [i \in DOMAIN st |-> <<st[i], ExtLen(f, cuts, st[i]), f[st[i]]>>]
+ExtsOf(f, cuts, un) == LET st == SetToSortSeq(ExtStarts(f, cuts), LAMBDA a, b : a < b)
+                       IN  [i \in DOMAIN st |-> <<st[i], ExtLen(f, cuts, st[i]), f[st[i]], IF st[i] \in un THEN "u" ELSE "w">>]
 Injective(f) == \A a, b \in DOMAIN f : f[a] = f[b] => a = b
 LinearDir(S) == LET sq == SetToSortSeq(S, LAMBDA a, b : a[2] < b[2] \/ (a[2] = b[2] /\ a[1] > b[1]))     \* not in hash order
                     n  == Len(sq)
@@ -199,13 +251,14 @@ LinearDir(S) == LET sq == SetToSortSeq(S, LAMBDA a, b : a[2] < b[2] \/ (a[2] = b
                 IN  [leaves |-> [k \in 1..nb |-> SubSeq(sq, (k - 1) * Cap + 1, Min2(k * Cap, n))], index |-> <<>>, indexed |-> FALSE]
 
 Init ==
-    /\ \E S \in SUBSET Names : \E lay \in {"linear", "indexed"} :
-         LET d == IF lay = "linear" THEN LinearDir(S) ELSE RehashDir(LinearDir(S).leaves)
-         IN  leaves = d.leaves /\ index = d.index /\ indexed = d.indexed
-    /\ \E D \in SUBSET LBlks : \E f \in [D -> DataBlks] : \E cuts \in SUBSET LBlks : \E kd \in {"ext", "ind"} : \E mt \in SUBSET MetaBlks :
-         /\ Injective(f)
-         /\ cuts \subseteq D /\ (kd = "ind" => cuts = D)          \* a block map is read block by block
-         /\ exts = ExtsOf(f, cuts) /\ kind = kd /\ meta = mt
+    /\ \E S \in SUBSET StartNames : \E lay \in {"linear", "indexed"} : \E c \in CfModes :
+         LET d == IF lay = "linear" THEN LinearDir(S) ELSE RehashDir(LinearDir(S).leaves, c)
+         IN  leaves = d.leaves /\ index = d.index /\ indexed = d.indexed /\ cfm = c
+    /\ \E D \in SUBSET LBlks : \E f \in {g \in [D -> DataBlks] : Injective(g)} : \E kd \in {"ext", "ind"} : \E mt \in SUBSET MetaBlks :
+       \E cuts \in (IF kd = "ind" THEN {D} ELSE SUBSET D) :                      \* a block map is read block by block
+       \* un = first blocks of the extents that are unwritten (a block map has no such state)
+       \E un \in (IF kd = "ind" \/ "u" \notin InitExtStates THEN {{}} ELSE SUBSET ExtStarts(f, cuts)) :
+         /\ exts = ExtsOf(f, cuts, un) /\ kind = kd /\ meta = mt
     /\ bitmap = Owned(exts, meta) /\ freecnt = Cardinality(AllBlks) - Cardinality(bitmap)
     /\ uninit \in {u \in BOOLEAN : u => bitmap = {}} /\ badcsum = {}
     /\ DirOK /\ MapOK
@@ -225,7 +278,7 @@ Damage ==
        \/ uninit' = ~uninit /\ UNCHANGED <<bitmap, freecnt, badcsum>>
        \/ \E o \in CsumObjs \ badcsum : badcsum' = badcsum \cup {o} /\ UNCHANGED <<bitmap, freecnt, uninit>>
     /\ dmg' = dmg + 1
-    /\ UNCHANGED <<tree, tree0, exit, mode, dmgd, dch, mch, lin3, leaves, index, indexed, exts, kind, meta, runs>>
+    /\ UNCHANGED <<tree, tree0, exit, mode, dmgd, dch, mch, lin3, leaves, index, indexed, cfm, exts, kind, meta, runs>>
     /\ cons' = RepOK'
 
 (***************************************************************************)
@@ -236,13 +289,14 @@ Fsck(m) ==
     /\ LET damaged == ~SummOK
            \* pass 2: a leaf whose checksum alone is wrong is rewritten with a fresh checksum (Dev: its entries are cleared)
            wipe == DevInodeUninitWipes /\ uninit /\ Owned(exts, meta) # {}
-           lv1  == IF wipe THEN <<<<>>>>
+           lv0  == IF wipe THEN <<<<>>>>
                    ELSE IF "leaf" \in badcsum /\ DevCsumClearsLeaf THEN [leaves EXCEPT ![1] = <<>>] ELSE leaves
+           lv1  == Pass2Names(lv0, cfm)                          \* pass 2 looks at every name
            \* a dx root that fails its checksum is cleared (clear_htree) and the directory rebuilt in pass 3A
            big  == ~indexed /\ Len(leaves) >= 3
            doRehash == m = "yD" \/ ("dxroot" \in badcsum /\ indexed) \/ big
            dirN == IF wipe THEN [leaves |-> lv1, index |-> <<>>, indexed |-> FALSE]
-                   ELSE IF doRehash THEN RehashDir(lv1) ELSE [leaves |-> lv1, index |-> index, indexed |-> indexed]
+                   ELSE IF doRehash THEN RehashDir(lv1, cfm) ELSE [leaves |-> lv1, index |-> index, indexed |-> indexed]
            doRemap == (m = "b2e" /\ kind = "ind") \/ (m # "fo" /\ CanCollapse)
            mapN == IF wipe THEN [exts |-> <<>>, kind |-> kind, meta |-> {}]
                    ELSE IF doRemap THEN Rebuild(exts) ELSE [exts |-> exts, kind |-> kind, meta |-> meta]
@@ -251,7 +305,7 @@ Fsck(m) ==
            changed == damaged \/ dirN.leaves # leaves \/ dirN.index # index \/ mapN.exts # exts \/ mapN.meta # meta \/ mapN.kind # kind
        IN  \/ \* repair
               /\ ~sbstuck
-              /\ leaves' = dirN.leaves /\ index' = dirN.index /\ indexed' = dirN.indexed
+              /\ leaves' = dirN.leaves /\ index' = dirN.index /\ indexed' = dirN.indexed /\ cfm' = cfm
               /\ exts' = mapN.exts /\ kind' = mapN.kind /\ meta' = mapN.meta
               /\ bitmap' = own /\ freecnt' = Cardinality(AllBlks) - Cardinality(own)          \* pass 5
               /\ uninit' = (uninit /\ own = {}) /\ badcsum' = {}
@@ -273,6 +327,11 @@ Fsck(m) ==
 
 Next == Damage \/ \E m \in Modes : Fsck(m)
 Spec == Init /\ [][Next]_vars
+
+\* RebuildExtents / Bmap2Extent / every other step of a run: the initialised state of every mapped block is preserved -- no
+\* block changes between written and unwritten, none is added, dropped or moved (stronger than the byte content: it also
+\* excludes turning an unwritten block into a hole).  Stated on the representation, checked as an action property.
+InitStatePreserved == [][runs' # runs => InitMap(exts') = InitMap(exts)]_vars
 
 \* the implementation-shaped actions refine the contract (checked as an action property)
 ContractRefined == [][(runs' # runs => FsckContract) /\ (dmg' # dmg => DamageContract)]_vars
@@ -301,6 +360,37 @@ QuickDirFamily == {f \in DirFamily : /\ f[1] \notin {"idx_minus1", "idx_full", "
 MapShapes == {"ext_inode_1", "ext_inode_4", "ext_leaf_5", "ext_leaf_full", "ext_depth2", "ext_uninit", "ext_collapsible",
               "ind_11", "ind_12", "ind_13", "ind_268", "ind_269", "ind_sparse", "ind_dind_far"}
 StartLayouts == {"linear", "rehashed", "rehashed_then_grown"}
+
+\* ---- written / unwritten state per extent (only the extent format has it).  One file per element:
+\*   tree class   "inode": depth 0, nothing to rebuild; "collapsible": a depth-1 tree left with fewer extents than the inode holds
+\*                (after a punch), which e2fsck rebuilds in pass 1E in every mode but fixes_only; "leaf": a depth-1 tree that needs
+\*                its leaf; "collapsible_d2": a depth-2 tree left with few extents
+\*   pattern      the states of up to three neighbouring extents, in logical order
+\*   adjacency    "contig": each extent continues the previous one logically AND physically (what the rebuild may merge when the
+\*                states agree); "loggap": a hole between them; "physgap": logically contiguous, physically elsewhere
+\* The bytes on disk under every unwritten block are non-zero (stale data), so that a reader that forgets the state sees them.
+ExtTreeClasses == {"inode", "collapsible", "leaf", "collapsible_d2"}
+ExtStates == {"w", "u"}
+StatePatterns == UNION {[1..n -> ExtStates] : n \in 1..3}
+AdjClasses == {"contig", "loggap", "physgap"}
+ExtStateFamily == {<<t, p, a>> \in ExtTreeClasses \X StatePatterns \X AdjClasses :
+                     /\ (Len(p) = 1 => a = "contig")                            \* a single extent has no neighbour
+                     /\ (t = "collapsible_d2" => a = "contig" /\ Len(p) = 2)}
+\* ---- casefold (mke2fs -O casefold): encoding mode of the filesystem x casefold flag of the directory x name class x size.
+\* Name classes are a boundary catalogue of UTF-8: valid multi-byte sequences of every length, precomposed vs decomposed forms,
+\* and every way a byte string can fail to be UTF-8.  Constraints = the consistent universe (DirOK): a casefolded directory holds
+\* no two names with the same folded form, and on a strict filesystem no invalid name.
+EncModes == {"nonstrict", "strict"}
+CfDirFlags == {"folded", "plain"}
+ValidNameKinds == {"ascii_mixed_case", "utf8_2byte", "utf8_3byte", "utf8_4byte", "utf8_decomposed"}
+TwinNameKinds == {"differ_in_case_ascii", "differ_in_case_utf8", "differ_in_normalisation"}      \* pairs with the same folded form
+InvalidNameKinds == {"latin1_high_byte", "lone_continuation", "truncated_2byte", "truncated_3byte", "truncated_4byte", "overlong_2byte",
+                     "surrogate", "above_10ffff", "bytes_fe_ff"}
+NameKinds == ValidNameKinds \cup TwinNameKinds \cup InvalidNameKinds
+CfSizeClasses == {"one_block", "indexed"}
+CfDirFamily == {<<m, f, k, z>> \in EncModes \X CfDirFlags \X NameKinds \X CfSizeClasses :
+                  /\ (f = "folded" => k \notin TwinNameKinds)
+                  /\ (f = "folded" /\ m = "strict" => k \notin InvalidNameKinds)}
 
 SummaryKinds ==
     {<<"bb", v>> : v \in {"clear_data", "clear_index", "clear_dirblock", "clear_fixed", "set_free", "clear_padding"}} \cup
